@@ -165,7 +165,7 @@ func (t *fnTrans) contractReturn(in *ssa.Return, rs []string) {
 				continue
 			}
 			sa := t.structAnnOf(a.Type())
-			if sa == nil || len(sa.invs) == 0 || !t.g.hasForeignLock(sa) {
+			if sa == nil || len(sa.invs) == 0 || !(t.g.hasForeignLock(sa) || t.g.isTypeInv(sa)) {
 				continue
 			}
 			obj := sval{term: t.val(a), typ: a.Type(), sort: "Int"}
@@ -825,7 +825,7 @@ func (t *fnTrans) contractCall(in ssa.Instruction, callee *ssa.Function, cc *ssa
 	if fc == nil {
 		return false
 	}
-	if len(fc.requires) == 0 && len(fc.ensures) == 0 && len(fc.holds) == 0 && !fc.hasMods && !fc.pure && len(fc.acquires) == 0 && len(fc.releases) == 0 {
+	if len(fc.requires) == 0 && len(fc.ensures) == 0 && len(fc.trusts) == 0 && len(fc.holds) == 0 && !fc.hasMods && !fc.pure && len(fc.acquires) == 0 && len(fc.releases) == 0 {
 		return false // annotation only about the callee's own body (nullable etc.)
 	}
 	binds := t.calleeBinds(callee, cc)
@@ -1003,6 +1003,13 @@ func (t *fnTrans) applyContract(in ssa.Instruction, fc *FuncContract, callee *ss
 		}
 	}
 	post := &evalCtx{t: t, fn: efn, st: t.cur, old: preState, binds: binds, results: results, where: full}
+	for _, en := range append(append([]specLine{}, fc.trusts...), fc.ensures...)[:len(fc.trusts)] {
+		t.quietSpec++
+		if term, ok := t.evalBool(post, en); ok {
+			t.assume(term)
+		}
+		t.quietSpec--
+	}
 	for _, en := range fc.ensures {
 		// ensures clauses that mention the callee's ghosts / locals cannot be used by callers
 		t.quietSpec++
